@@ -182,6 +182,20 @@ func runWorker(bin string, job Job, scratch string, stuckAfter, hardLimit time.D
 			if (stuckAfter > 0 && time.Since(lastChange) > stuckAfter) || (hardLimit > 0 && time.Since(start) > hardLimit) {
 				syscall.Kill(-cmd.Process.Pid, syscall.SIGKILL)
 				<-done
+				if cs == "-2" {
+					// all cases were done and their results written; only the
+					// rendering of sample cases for the evidence file did not finish
+					if ob, rerr := os.ReadFile(job.Out); rerr == nil {
+						var out Out
+						if json.Unmarshal(ob, &out) == nil {
+							fmt.Fprintf(os.Stderr, "falcosim: worker %d finished its cases but not the rendering of samples; results kept, samples dropped\n", job.Worker)
+							os.Remove(job.Out)
+							os.Remove(jobPath)
+							os.Remove(job.Crumb)
+							return &out, "", nil
+						}
+					}
+				}
 				return nil, cs, fmt.Errorf("stuck")
 			}
 		}
@@ -279,7 +293,7 @@ func runCheck(id, tier string) int {
 
 func budgets(tier string) (caseBudget time.Duration, stuck time.Duration) {
 	if tier == "thorough" {
-		caseBudget, stuck = 25*time.Minute, 180*time.Second
+		caseBudget, stuck = 25*time.Minute, 300*time.Second
 	} else {
 		caseBudget, stuck = 90*time.Second, 60*time.Second
 	}
